@@ -39,6 +39,9 @@ BAD2 = b"print 1\nif true\nprint 2\n"
 TRAIL = b"print 1\n\n\n"
 TXTAR = (b"an archive\n-- a.evy --\nx:=1\nprint   x\n-- notes.txt --\nkeep   this  as is\n"
          b"-- b.evy --\nprint 2\n")
+# members that GROW under formatting by more than the marker line that follows them, and members that shrink
+TXTARGROW = (b"-- grow.evy --\nif true\nif true\nprint 1\nprint 2\nprint 3\nend\nend\n-- data.txt --\n1 2 3\n-- shrink.evy --\nx  :=   [  1    2   ]\nprint     x\n"
+             b"-- grow2.evy --\nfor i := range 2\nfor j := range 2\nfor k := range 2\nprint i j k\nend\nend\nend\n-- last.txt --\nend of archive\n")
 TXTARBAD = b"-- a.evy --\nprint 1\n-- b.evy --\nx := \n"
 BIG = b"".join(b"print   %d  %d\n" % (i, i * 7) for i in range(6000))
 
@@ -126,6 +129,7 @@ def write_inputs():
         "unfmt2": ("prog.evy", UNFMT2),
         "big": ("big.evy", BIG),
         "txtarfmtd": ("a.txtar", tf),
+        "txtargrow": ("g.txtar", TXTARGROW),
     }
 
 
@@ -800,9 +804,9 @@ def run(chk):
     # ---- fmt -w: (input, mode) combinations
     combos = [(lab, m) for lab in inputs for m in MODES]
     if chk.tier == "quick":
-        core = [(lab, m) for lab in ("unfmt", "fmtd", "bad", "txtar") for m in MODES]
+        core = [(lab, m) for lab in ("unfmt", "fmtd", "bad", "txtar", "txtargrow") for m in MODES]
         sel = common.pick(core, 3)
-        for must in ("unfmt", "bad"):          # always one file that changes and one that does not parse
+        for must in ("unfmt", "bad", "txtargrow"):          # always one file that changes, one that does not parse, one archive
             if not any(l == must for l, _ in sel):
                 sel.append((must, common.pick(MODES, 1)[0]))
         combos = sel
@@ -917,7 +921,7 @@ def check_family(chk, inputs, orc, table):
         "fmtd": ("a.evy", fm), "unfmt": ("a.evy", UNFMT), "trail": ("a.evy", TRAIL), "bad": ("a.evy", BAD),
         "bad2": ("a.evy", BAD2), "empty": ("a.evy", b""), "nonl": ("a.evy", fm.rstrip(b"\n")),
         "unfmt2": ("a.evy", UNFMT2), "txtar": ("a.txtar", TXTAR), "txtarfmtd": inputs["txtarfmtd"],
-        "txtarbad": ("a.txtar", TXTARBAD), "fmttrail": ("a.evy", fm + b"\n"),
+        "txtarbad": ("a.txtar", TXTARBAD), "fmttrail": ("a.evy", fm + b"\n"), "txtargrow": ("g.txtar", TXTARGROW),
         "crlf": ("a.evy", CRLF), "crlfunfmt": ("a.evy", CRLFUNFMT), "fmtcrlf": ("a.evy", fm.replace(b"\n", b"\r\n")),
         "fmtbom": ("a.evy", b"\xef\xbb\xbf" + fm), "fmttrailblank": ("a.evy", fm.replace(b"\n", b" \n", 1)),
     }
